@@ -208,6 +208,12 @@ func newRealChain(scratch string, w, netThr int, deps []depDef, implicit map[int
 
 var opTrueScript = []byte{txscript.OP_TRUE}
 
+// "1 OP_CHECKSEQUENCEVERIFY": spendable by anybody while the opcode is a NOP;
+// once BIP112 is enforced only by a version >= 2 transaction.
+var csvScript = []byte{txscript.OP_1, txscript.OP_CHECKSEQUENCEVERIFY}
+
+const csvOutValue = 1000
+
 func (rc *realChain) coinbase(height int32, lockTime uint32, sequence uint32) *wire.MsgTx {
 	rc.nonce++
 	script, err := txscript.NewScriptBuilder().AddInt64(int64(height)).AddInt64(rc.nonce).
@@ -221,7 +227,8 @@ func (rc *realChain) coinbase(height int32, lockTime uint32, sequence uint32) *w
 		SignatureScript:  script,
 		Sequence:         sequence,
 	})
-	tx.AddTxOut(&wire.TxOut{Value: blockchain.CalcBlockSubsidy(height, rc.params), PkScript: opTrueScript})
+	tx.AddTxOut(&wire.TxOut{Value: blockchain.CalcBlockSubsidy(height, rc.params) - csvOutValue, PkScript: opTrueScript})
+	tx.AddTxOut(&wire.TxOut{Value: csvOutValue, PkScript: csvScript})
 	tx.LockTime = lockTime
 	return tx
 }
@@ -334,10 +341,24 @@ func (rc *realChain) probe68(n *node) *btcutil.Block {
 	return rc.makeBlock(n, vbTopBits, ts, []*wire.MsgTx{cb, tx})
 }
 
+// probe112 builds a child of n (height >= 1) with a version-1 transaction that
+// spends the "1 OP_CHECKSEQUENCEVERIFY" output of n's coinbase: valid while
+// the opcode is a NOP, a script failure once BIP112 (part of the CSV
+// deployment) is enforced.  BIP68 does not apply to version 1.
+func (rc *realChain) probe112(n *node) *btcutil.Block {
+	ts := rc.absTime(n.mtp).Add(30 * time.Second)
+	cb := rc.coinbase(n.height+1, 0, wire.MaxTxInSequenceNum)
+	tx := wire.NewMsgTx(1)
+	tx.AddTxIn(&wire.TxIn{PreviousOutPoint: *wire.NewOutPoint(&n.cbHash, 1), Sequence: wire.MaxTxInSequenceNum})
+	tx.AddTxOut(&wire.TxOut{Value: csvOutValue, PkScript: opTrueScript})
+	return rc.makeBlock(n, vbTopBits, ts, []*wire.MsgTx{cb, tx})
+}
+
 // verdict classes of a delivered block
 const (
 	vAccepted   = "accepted"
 	vUnfinal    = "rejected-unfinalized"
+	vScript     = "rejected-script"
 	vOtherRule  = "rejected-other-rule"
 	vOtherError = "error"
 )
@@ -349,6 +370,9 @@ func classify(err error) string {
 	if re, ok := err.(blockchain.RuleError); ok {
 		if re.ErrorCode == blockchain.ErrUnfinalizedTx {
 			return vUnfinal
+		}
+		if re.ErrorCode == blockchain.ErrScriptValidation {
+			return vScript
 		}
 		return vOtherRule + ":" + re.ErrorCode.String()
 	}
